@@ -38,6 +38,10 @@ func NewReplicatorRetryDocIDKey(peerID, docID string) ReplicatorRetryDocIDKey {
 func NewReplicatorRetryDocIDKeyFromString(key string) (ReplicatorRetryDocIDKey, error) {
 	trimmedKey := strings.TrimPrefix(key, REPLICATOR_RETRY_DOC+"/")
 	keyArr := strings.Split(trimmedKey, "/")
+	if len(keyArr) == 1 && keyArr[0] != "" {
+		// The failed push of a collection-level commit (branchable collections) has no docID.
+		return NewReplicatorRetryDocIDKey(keyArr[0], ""), nil
+	}
 	if len(keyArr) != 2 {
 		return ReplicatorRetryDocIDKey{}, errors.WithStack(ErrInvalidKey, errors.NewKV("Key", key))
 	}
